@@ -112,6 +112,14 @@ func runCust(c CustCase) *pbt.Violation {
 	}
 	for i, u := range c.S.all() {
 		pt := base.AvPacketPtAac
+		switch c.S.Audio {
+		case "g711a":
+			pt = base.AvPacketPtG711A
+		case "g711u":
+			pt = base.AvPacketPtG711U
+		case "opus":
+			pt = base.AvPacketPtOpus
+		}
 		if u.V {
 			pt = vpt
 		}
